@@ -156,25 +156,30 @@ func resolveMathMultiply(t v1.MathTransform, input any) (any, error) {
 // is not a number. depending on the type of clamp, the result will be either
 // the input or the clamp value, preserving their original types.
 func resolveMathClamp(t v1.MathTransform, input any) (any, error) {
-	var in int64
+	var below, above func(bound int64) bool
 	switch i := input.(type) {
 	case int:
-		in = int64(i)
+		below = func(bound int64) bool { return int64(i) < bound }
+		above = func(bound int64) bool { return int64(i) > bound }
 	case int64:
-		in = i
+		below = func(bound int64) bool { return i < bound }
+		above = func(bound int64) bool { return i > bound }
 	case float64:
-		in = int64(i)
+		// We compare a float as a float. Truncated to an integer, 5.5
+		// would not be above a maximum of 5.
+		below = func(bound int64) bool { return i < float64(bound) }
+		above = func(bound int64) bool { return i > float64(bound) }
 	default:
 		// should never happen as we validate the input type in ResolveMath
 		return nil, errors.Errorf(errFmtMathInputNonNumber, input)
 	}
 	switch t.GetType() { //nolint:exhaustive // We validate the type in ResolveMath
 	case v1.MathTransformTypeClampMin:
-		if in < *t.ClampMin {
+		if below(*t.ClampMin) {
 			return *t.ClampMin, nil
 		}
 	case v1.MathTransformTypeClampMax:
-		if in > *t.ClampMax {
+		if above(*t.ClampMax) {
 			return *t.ClampMax, nil
 		}
 	default:
